@@ -86,7 +86,7 @@ int main(int argc, char** argv)
     memset(&sa, 0, sizeof sa);
     sa.sa_handler = on_signal;
     sa.sa_flags = SA_NODEFER;
-    for (int s : { SIGSEGV, SIGBUS, SIGILL, SIGFPE, SIGALRM })
+    for (int s : { SIGSEGV, SIGBUS, SIGILL, SIGFPE, SIGALRM, SIGABRT })
         sigaction(s, &sa, nullptr);
 
     // index: (kind,op,type) -> list of (arch index, fn)
@@ -127,7 +127,7 @@ int main(int argc, char** argv)
         for (auto& pr : it->second)
         {
             // "bb" plan lines may be addressed to one register width (imm = register bytes, 0 = every width)
-            if (kind[0] == 'b' && kind[1] == 'b' && imm != 0 && reg[pr.first].regbytes != imm)
+            if (((kind[0] == 'b' && kind[1] == 'b') || (kind[0] == 'p' && kind[1] == 'm' && strcmp(op, "extract_pair") != 0)) && imm != 0 && reg[pr.first].regbytes != imm)
                 continue;
             static vd::Out o;
             o.len = 0;
